@@ -90,7 +90,7 @@ func (p *printer) printFile(file *ast.File) error {
 					default:
 						panic("unreachale")
 					}
-					p.print(d.Lparen, tok, token.COLON)
+					p.print(d.Pos(), tok, token.COLON)
 					if n := len(d.Specs); n > 0 {
 						p.print(indent, formfeed)
 						if n > 1 {
@@ -136,12 +136,12 @@ func (p *printer) printFile(file *ast.File) error {
 
 				switch s.Type.(type) {
 				case *ast.StructType:
-					p.declStructType(s)
+					p.declStructType(d.Pos(), s)
 				case *ast.InterfaceType:
-					p.declInterfaceType(s)
+					p.declInterfaceType(d.Pos(), s)
 				default:
 					if s.Assign.IsValid() {
-						p.declTypeAssign(s)
+						p.declTypeAssign(d.Pos(), s)
 					} else {
 						panic("unreachable")
 					}
